@@ -70,6 +70,13 @@ Theorem C02_nobody_woken_twice :
 Proof. exact WaiterList.nobody_woken_twice. Qed.
 Print Assumptions C02_nobody_woken_twice.
 
+(** ... and nobody is lost: every subscriber of a history still waits, or has been scheduled, or withdrew itself *)
+Theorem C02_no_waiter_is_lost :
+  forall ops p, In p (WaiterList.all_subs ops) ->
+    WaiterList.accounted (WaiterList.run ops) p \/ In p (WaiterList.unsubs_of ops).
+Proof. exact WaiterList.nobody_is_lost. Qed.
+Print Assumptions C02_no_waiter_is_lost.
+
 Theorem C02_awake_all_wakes_everybody_oldest_first :
   forall ops, WaiterList.waiting (WaiterList.run (ops ++ [WaiterList.AwakeAll])) = [] /\
     WaiterList.scheduled (WaiterList.run (ops ++ [WaiterList.AwakeAll])) =
